@@ -411,9 +411,19 @@ impl World {
         loop {
             // worker model: an `async` task holds a worker from the moment it runs until it
             // awaits a join / sleeps / finishes
-            for p in &mut self.parts {
-                if p.has_worker && matches!(p.state, St::BlockedJoin(_) | St::Sleeping(_) | St::WaitAll | St::Finished) {
-                    p.has_worker = false;
+            for i in 0..self.parts.len() {
+                if !self.parts[i].has_worker {
+                    continue;
+                }
+                let releases = match self.parts[i].state {
+                    St::BlockedJoin(_) | St::Sleeping(_) | St::WaitAll | St::Finished => true,
+                    // the command-substitution drain is an asynchronous read in production
+                    // (tokio pipe Receiver): the task yields its worker while it waits
+                    St::BlockedRead(p) => self.pipes[p].site == "cmdsubst",
+                    _ => false,
+                };
+                if releases {
+                    self.parts[i].has_worker = false;
                 }
             }
             let free = match self.cfg.workers {
